@@ -789,6 +789,15 @@ def is_min(t, a, b):
     return False
 
 
+# objects are zero-filled at birth: the functions of these units rely on it for every field their constructors do not store
+_run_clauses = run
+
+
+def run(prog, rep):
+    _run_clauses(prog, rep)
+    from plint.wiring import check_zero_init
+    check_zero_init(rep, "C08.7", prog, ['pshmbuffer.c'], 1)
+
 # generic robustness battery: renaming every local/parameter in these files must not change any verdict
 RENAME_LOCALS = ['src/pshmbuffer.c']
 
